@@ -242,7 +242,7 @@ pub fn run(p: &Params, rep: &mut Report) {
         }
     }
     // random intervals away from the boundaries
-    let n = p.size(2000, 50_000);
+    let n = p.size(50_000, 500_000);
     for _ in 0..n {
         let mk = |rng: &mut Rng| {
             let a = rng.below(0x30000) as u32;
